@@ -30,7 +30,8 @@ def kind_scope(*mods):
 
 PROPS = {
     "C10": {
-        "rules": [r_panic.run, r_panic.run_errprop, r_panic.run_narrow_arith],
+        "rules": [r_panic.run, r_panic.run_errprop, r_panic.run_narrow_arith,
+                  kind_scope("dictionary::connector", "dictionary::mapper")],
         "explanation": "PANIC: every potential panic or silent-wrap site (assert terminators for "
                        "bounds/overflow/division/shift, calls to unwrap/expect/panic!/assert!/"
                        "indexing/copy_from_slice/chunks/..., narrowing `as` casts) in the "
@@ -89,7 +90,7 @@ PROPS = {
     },
     "C16": {
         "rules": [r_fmt.run_c16, r_cost.run_c16, kind_scope("trainer::model", "raw_connector"),
-                  r_scorer.reserved0, r_scorer.rowrange],
+                  r_scorer.reserved0, r_scorer.padval, r_scorer.rowrange],
         "explanation": "FMT: bigram.left/right lines are `id TAB csv` with 1-based ids (what "
                        "parse_features and the id == line+1 check require); bigram.cost lines are "
                        "`left-word feature / right-word feature TAB cost`, matching the order in "
@@ -215,7 +216,8 @@ PROPS = {
     },
     "C02": {
         "rules": [r_viterbi.viterbi, r_viterbi.traceback, r_panic.run_narrow_lattice,
-                  kind_scope("tokenizer", "connector", "lexicon::param", "unknown")],
+                  kind_scope("tokenizer", "connector", "lexicon::param", "unknown"),
+                  r_reset.run_tokens],
         "explanation": "VITERBI: insert_node/insert_eos take (argmin, min) from one search over "
                        "the complete predecessor list of the very start_node they store, with "
                        "cost(pred.right_id, own left_id), min_cost = best + word_cost, EOS "
@@ -246,7 +248,7 @@ PROPS = {
     },
     "C08": {
         "rules": [r_map.run_user, r_cand.cand, r_token.dispatch,
-                  kind_scope("dictionary::lexicon", "dictionary::Dictionary")],
+                  kind_scope("dictionary::lexicon", "dictionary::Dictionary", "dictionary::connector")],
         "explanation": "MAPKEEP: a user lexicon is translated by the stored mapper, then verified "
                        "against the dictionary's connector (failure returns Err), then installed; "
                        "None clears; replace not merge; only verified installation points write "
@@ -310,7 +312,7 @@ PROPS = {
         "level_note": "Trusted: bincode/bincode_derive; rucrf's derived impls.",
         "technique": "sibling cross-check of encoder/decoder MIR",
     },    "C06": {
-        "rules": [r_map.run, r_scorer.rowrange],
+        "rules": [r_map.run, r_scorer.rowrange, kind_scope("dictionary::connector", "dictionary::mapper")],
         "explanation": "MAP rules over the MIR of Dictionary::map_connection_ids_from_iter, "
                        "reset_user_lexicon_from_reader and every map_connection_ids method: the "
                        "one mapper reaches every id-carrying component on all successful paths "
@@ -364,7 +366,12 @@ _ADDED = {
     "C07": ("ROWRANGE as for C06 (the accessors used by cost()). NARROW over the connector "
             "functions: no narrowing cast and no 8/16-bit arithmetic on an id is left "
             "undischarged (id 65535 is a legal id).", "symbolic index-range shape rule"),
-    "C10": ("NARROW-ARITH: no overflow-checked arithmetic in an 8/16-bit type below "
+    "C02": ("RESET (token scope): the lattice and result buffers are cleared over their whole "
+            "used width before each tokenization, so the recurrence never sees a node of an "
+            "earlier sentence (a partial clear such as iter_mut().take(n) counts only when n is "
+            "the length the buffer is grown to).", "MIR typestate dataflow"),
+    "C10": ("KIND over the connectors and the mapper (loop bounds and tables of the two sides "
+            "are not crossed in the remapping loops). NARROW-ARITH: no overflow-checked arithmetic in an 8/16-bit type below "
             "Worker::tokenize / Token (ids up to u16::MAX are accepted by the builder). "
             "VERIFYMAP: every Lexicon/UnkHandler::map_connection_ids call acts on a component of "
             "a constructed dictionary or on a new component that verify() has accepted on every "
